@@ -21,9 +21,12 @@ TRUSTED = [
     "a table over all prefixes and suffixes of the value; C08 owns the matcher), values of arithmetic operands (computed by the "
     "generator; C07), the expansion of the operand word (literal words only)",
     "spec validation: ParamExp/ParamSpec.v is compared with /usr/bin/bash 5.2.15 (LC_ALL=C.UTF-8) on every generated case (spec_vs_bash)",
-    "exploration only (code vs bash, no model, no theorem): ${v/p/r} family, case modification, @Q @U @L @u @E @A @a @P, ${!v}, ${!a[@]}",
+    "translator/ex_c06_paramops.py: regenerates the ordered operator literals of word.rs parameter_expression / "
+    "non_posix_parameter_expression (shape-checked, fail-closed) into gen/C06ParamOps.v",
+    "exploration only (code vs bash, no model, no theorem): ${v/p/r} family, case modification, @Q @U @L @u @E @A @a @K @k @P, ${!v}, ${!prefix@}",
 ]
-ASSUMPTIONS = ["default IFS; the operand word of - = ? + is a literal word; subscripts are integer literals or literal keys; "
+ASSUMPTIONS = ["values shorter than 2^63 characters / elements (the `as i64` cast of the length is modelled as exact; hypothesis `fits`)",
+               "default IFS; the operand word of - = ? + is a literal word; subscripts are integer literals or literal keys; "
                "UTF-8 locale for bash (C.UTF-8); indexed arrays given to ${a[@]:o:l} are dense from 0 (bash slices by index, brush by position: noted)"]
 
 BASH = "/usr/bin/bash"
@@ -343,7 +346,7 @@ def gen_cond(ctx):
                     if op == "=" and is_list(r):
                         continue   # bash assigns to subscript "@" of an associative array; outside the property
                     cases.append(("cond", st, r, op, colon, "W"))
-    nrand = 600 if ctx.quick else 6000
+    nrand = 400 if ctx.quick else 6000
     for _ in range(nrand):
         st = rand_state(ctx.rng)
         r = rand_ref(ctx.rng, st)
@@ -673,7 +676,7 @@ def gen_rm(ctx):
             for op in ("#", "##", "%", "%%"):
                 cases.append(("rm", st, r, op, [("P", "*"), ("L", "a")]))
                 cases.append(("rm", st, r, op, []))
-    for _ in range(1200 if ctx.quick else 12000):
+    for _ in range(900 if ctx.quick else 12000):
         st = rand_state(rng)
         r = rand_ref(rng, st)
         ws = words(st, r) or []
@@ -917,7 +920,7 @@ def gen_explore(ctx):
         for e in ["${!ab@}", "${!ab*}", "${!zz@}"]:
             out.append(("prefix-names", "%s\nshow \"%s\"\nprintf 'S%%s\\0' \"$?\"\n" % (st, e)))
     if ctx.quick:
-        out = rng.sample(out, min(len(out), 700))
+        out = rng.sample(out, min(len(out), 400))
     return out
 
 
@@ -1018,17 +1021,40 @@ def search(ctx, res):
 
 
 def code_vs_bash(recs):
+    """verdict without a model: code vs bash, known classes decided from the case alone"""
     out = []
     for rec in recs:
         if rec["code"] != rec["bash"]:
-            out.append({"input": {"family": rec["case"][0], "script": rec["script"]},
-                        "why": "code %r differs from bash %r (no model available)" % (rec["code"], rec["bash"])})
-    out.sort(key=lambda v: len(v["input"]["script"]))
-    return out[:5]
+            c = rec["case"]
+            kid = None
+            if c[0] == "cond":
+                kid = cond_known(c, None, None)
+            elif c[0] == "len":
+                kid = len_known(c, None, None)
+            elif c[0] == "sub":
+                kid = sub_known(c, None, None)
+            elif c[0] == "rm":
+                bb, strs = rec.get("bash_bits"), rm_strings(c)
+                if bb and len(bb) == len(rec["bits"]) and bb != rec["bits"]:
+                    kid = KF_MLINE if any("\n" in w for w in (words(c[1], c[2]) or [])) else KF_MATCH
+                elif c[3] in ("#", "%") and bb and "" in strs and bb[strs.index("")] == "1":
+                    kid = KF_EMPTY
+            v = {"input": {"family": c[0], "script": rec["script"]},
+                 "why": "code %r differs from bash %r (no model available)" % (rec["code"], rec["bash"])}
+            if kid:
+                v["known"] = kid
+            out.append(v)
+    out.sort(key=lambda v: (bool(v.get("known")), len(v["input"]["script"])))
+    unknown = [v for v in out if not v.get("known")]
+    firsts = {}
+    for v in out:
+        if v.get("known"):
+            firsts.setdefault(v["known"], v)
+    return unknown[:5] + list(firsts.values())
 
 
 def run_code_only(ctx):
-    cases = gen_cond(ctx) + gen_len(ctx) + gen_sub(ctx) + gen_rm(ctx)
+    cases = gen_cond(ctx) + gen_len(ctx) + gen_sub(ctx) + gen_rm(ctx) + gen_keys(ctx)
     recs = evaluate(ctx, cases, with_model=False)
     return {"evaluations": len(cases), "distinct_nontrivial": len({r["script"] for r in recs}),
             "rule": "code vs bash only (model did not build)", "samples": [],
